@@ -233,7 +233,7 @@ func runOverload() {
 			ok = append(ok, u)
 		}
 	}
-	size := 150
+	size := 300
 	t0 = time.Now()
 	outs := runBatches(ok, size, opt, 8)
 	fmt.Fprintf(errOut, "overload: batches run in %.1fs\n", time.Since(t0).Seconds())
